@@ -299,6 +299,17 @@ def run(ctx):
     ctx.ob("B6", AL, "axi_lite_to_simple", "do_write/do_read alternate when both are valid", ok,
            "" if ok else f"do_write = {B.show(dwf) if dwf else '?'}; do_read = {B.show(drf) if drf else '?'}")
 
+    # the address channel that is acknowledged is the one that is served: in START-TRANSACTION  aw handshake <=> do_write,
+    # ar handshake <=> do_read (an acknowledged-but-dropped address hangs the master, a served-but-unacknowledged one repeats)
+    for ch, served, sf in (("aw", "do_write", dwf), ("ar", "do_read", drf)):
+        fr = inl.formula_of_path(f"axi_lite.{ch}.ready")
+        ok = fr is not None and sf is not None and \
+            B.equivalent(B.And(st, B.A(f"axi_lite.{ch}.valid"), fr), B.And(st, sf))
+        ctx.ob("B6", AL, "axi_lite_to_simple", f"{ch} accepted exactly when {served}", ok,
+               "" if ok else f"axi_lite.{ch}.ready = {B.show(fr) if fr is not None else '?'} but {served} = {B.show(sf) if sf is not None else '?'}: with AW "
+                             f"and AR valid together the acknowledged channel is not the served one; e.g. "
+                             f"{B.counterexample(B.And(st, B.A(f'axi_lite.{ch}.valid'), fr), B.And(st, sf)) if fr is not None and sf is not None else ''}", 0)
+
     # ================================================================ B9
     PERSIST = {"last_was_read": "fairness flag, persistent by design (B6)", "_last_ar_aw_n": "fairness flag, persistent by design (B6)"}
     for rel, name, is_func, _ in HOLD:
